@@ -348,6 +348,39 @@ def single_def(fn, name: str) -> Optional[ast.expr]:
     return None
 
 
+def _synth(text: str, like: ast.AST) -> ast.expr:
+    n = ast.parse(text, mode="eval").body
+    for node in ast.walk(n):
+        for child in ast.iter_child_nodes(node):
+            child._parent = node  # type: ignore[attr-defined]
+        if hasattr(node, "lineno"):
+            node.lineno = getattr(like, "lineno", 0)
+    return n
+
+
+def value_def(fn, name: str) -> Optional[ast.expr]:
+    """The one expression a local stands for: its single binding, or - when it is bound once in each branch of one
+    if/else statement, or given a default and overwritten under one `if` - the equivalent conditional expression
+    (a synthesised node: it carries the line of the statement, it is not part of the function's tree)."""
+    v = single_def(fn, name)
+    if v is not None:
+        return v
+    binds = local_assignments(fn).get(name, [])
+    if len(binds) != 2 or not all(isinstance(b, ast.Assign) and len(b.targets) == 1 and isinstance(b.targets[0], ast.Name) for b in binds):
+        return None
+    a, b = sorted(binds, key=lambda x: x.lineno)
+    pa, pb = parent(a), parent(b)
+    if isinstance(pa, ast.If) and pa is pb and a in pa.body and b in pa.orelse:
+        return _synth(f"({unparse(a.value)}) if ({unparse(pa.test)}) else ({unparse(b.value)})", pa)
+    if isinstance(pb, ast.If) and b in pb.body and not pb.orelse and parent(pb) is pa:
+        blk = next((getattr(pa, f) for f in ("body", "orelse", "finalbody") if isinstance(getattr(pa, f, None), list) and a in getattr(pa, f)), None)
+        if blk is not None and pb in blk and blk.index(a) < blk.index(pb):
+            # nothing between the default and the `if` may read the name in a way that matters here: the value *after*
+            # the `if` is what a later reader sees
+            return _synth(f"({unparse(b.value)}) if ({unparse(pb.test)}) else ({unparse(a.value)})", pb)
+    return None
+
+
 def inline_locals(fn, expr: ast.expr, depth: int = 6) -> ast.expr:
     """Replace single-assignment locals by their defining expression (bounded depth)."""
     params = set(func_params(fn))
@@ -358,7 +391,7 @@ def inline_locals(fn, expr: ast.expr, depth: int = 6) -> ast.expr:
 
         def visit_Name(self, node):
             if isinstance(node.ctx, ast.Load) and node.id not in params and self.d > 0:
-                v = single_def(fn, node.id)
+                v = value_def(fn, node.id)
                 if v is not None:
                     return T(self.d - 1).visit(clone_expr(v))
             return node
